@@ -208,6 +208,62 @@ def run(ctx):
             ctx.count("explicit_equals_other_types_default")
     # the whole pipeline with user penalties against the composed model (profiles, kernels and the parameter block together)
     diffs += C.pipeline_correspondence(ctx, kvh, [3 * ctx.seed + 2000] if ctx.quick else [3 * ctx.seed + 2000 + 30 * k for k in range(4)])
+    # marginal decisions: two groups of similar sequences that overlap in a short core with overhangs on both sides; whether the groups are joined on
+    # the overlap is decided by a few score units -- the selected gap-extension against the selected terminal penalty among them. The proved model
+    # run with the caller's type and overrides says which alignment these parameters select; where the implementation returns another one, both are
+    # scored under exactly the selected parameters (harness/ops_ref.c refsp, the reading S_T of the reference DP)
+    from props import c07 as _c07
+    ml, mmeta = [], []
+    for j in range(150 if ctx.quick else 1500):
+        d = _c07.marginal_dovetail(rng, overrides=rng.random() < 0.6)
+        alpha_ = gen.AA if d["kind"] == "protein" else (gen.RNA if d["kind"] == "rna" else gen.DNA)
+
+        def member(q):
+            q = list(q)
+            for _ in range(rng.choice([0, 0, 1, 2])):
+                q[rng.randrange(len(q))] = rng.choice(alpha_)
+            return "".join(q)
+        seqs = [d["a"]] + [member(d["a"]) for _ in range(d["ka"] - 1)] + [d["b"]] + [member(d["b"]) for _ in range(d["kb"] - 1)]
+        pb = [fbits(float(x)) if x != -1 else "bf800000" for x in d["pens"]]
+        ml.append("kalign_sys %d %s %s %s %s" % (d["t"], pb[0], pb[1], pb[2], " ".join(seqs)))
+        mmeta.append((d, seqs, pb))
+    chunks_ = [list(range(i, len(ml), C.NCPU)) for i in range(C.NCPU)]
+    from concurrent.futures import ThreadPoolExecutor as _TPE
+    with _TPE(C.NCPU) as ex_:
+        oi_ = list(ex_.map(lambda ix: C.run_lines(kvh, [ml[i] for i in ix], env=C.SAN_ENV, timeout=900)[1] if ix else [], chunks_))
+        om_ = list(ex_.map(lambda ix: C.run_lines(C.kmodel_path(), [ml[i] for i in ix], timeout=900)[1] if ix else [], chunks_))
+    impl_, mod_ = {}, {}
+    for ix, a_, b_ in zip(chunks_, oi_, om_):
+        for k_, i in enumerate(ix):
+            impl_[i] = a_[k_] if k_ < len(a_) else ""
+            mod_[i] = b_[k_] if k_ < len(b_) else ""
+    for i, (d, seqs, pb) in enumerate(mmeta):
+        ctx.evaluations += 1
+        if impl_[i] == mod_[i]:
+            ctx.count("marginal_groups_agree_with_model")
+            continue
+        dd = dict(index=i, op=ml[i], impl=impl_[i], model=mod_[i], note="marginal dovetail groups")
+        ri, rm = impl_[i].split(), mod_[i].split()
+        if not (ri and rm and ri[0] == "rc=0" and rm[0] == "rc=0" and len(ri) == len(rm) == 2 + len(seqs)):
+            diffs.append(dd)
+            continue
+        alph = 23 if d["kind"] == "protein" else 5
+        cv = C.run_lines(kvh, ["convert %d %s" % (alph, q) for q in seqs], env=C.SAN_ENV)[1]
+
+        def coderow(row, codes):
+            it = iter(codes.split(","))
+            return ",".join(next(it) if ch != "-" else "-1" for ch in row)
+        sp = []
+        for rows in (ri[2:], rm[2:]):
+            ln = "refsp %d %d %s %s %s %s" % (0 if d["kind"] == "protein" else 1, d["t"], pb[0], pb[1], pb[2], " ".join(coderow(r_, c_) for r_, c_ in zip(rows, cv)))
+            o_ = C.run_lines(kvh, [ln], env=C.SAN_ENV)[1]
+            sp.append(float(o_[0][3:]) if o_ and o_[0].startswith("sp=") else None)
+        if sp[0] is not None and sp[1] is not None and sp[0] < sp[1] - 1e-3 * (1 + abs(sp[1])):
+            fails.append(("type %d with gpo/gpe/tgpe overrides %s: the alignment returned scores %.2f under the selected parameters, the alignment these parameters select in the "
+                          "proved model scores %.2f (sum of pairs; substitution scores, gap-open, gap-extension and terminal penalties as selected)" % (d["t"], d["pens"], sp[0], sp[1]),
+                          dict(sequences=seqs, type=d["t"], overrides=d["pens"], rows_returned=ri[2:], rows_model=rm[2:], op=ml[i])))
+        else:
+            diffs.append(dd)
     # argv -> library call, judged against an independent expectation (not the Lean model): a decimal value given to --gpo/--gpe/--tgpe must reach
     # kalign_run as exactly (float)value, -n as the integer, the other two penalties as -1 (= library default)
     cl_lines, cl_meta = [], []
